@@ -149,7 +149,17 @@ def judge(case, ibc, answers):
         def P(kind, what, finding=None):
             probs.append({'kind': kind, 'cfg': cfg, 'what': what, 'finding': finding})
         if 'err' in r:
-            P('impl-vs-spec', 'call failed: %s %s' % (r['err'], r.get('msg')))
+            refused = False
+            if case['k'] == 'its' and case['lumped'] and r['err'] == 'TypeError':
+                # a lumped object refuses (TypeError) when the micro model at some lag is not ergodic (C03)
+                from props import c03
+                for lag in case['lags']:
+                    a = C.mrun([[301] + C.enested(case['macro']) + C.enested(case['trajs']) + C.ebool(False) + [lag]])[0]
+                    model, _, _, emicro = c03.decode(a)
+                    if model[0] == 'err' or not (emicro[0] == 'ok' and emicro[1][2]):
+                        refused = True
+            if not refused:
+                P('impl-vs-spec', 'call failed: %s %s' % (r['err'], r.get('msg')))
             continue
         if case['k'] == 'eig':
             T = [[Fraction(x) for x in row] for row in case['M']]
